@@ -2,7 +2,9 @@
    atoms. Property theorems only; proofs in Proofs/Moves.v, generated table in
    Generated/MovesTable.v (regenerated from /repo's topology on every run). *)
 From Coq Require Import List PArith Bool String Arith.
+From Coq Require Import Reals ZArith.
 From PV Require Import Model.ForceField Model.Topology Model.Moves Proofs.Moves.
+From PV Require Import Model.Quatfit Model.Debump Proofs.Debump Proofs.DebumpTable.
 From PV Require Import Generated.Topology Generated.MovesTable.
 Import ListNotations.
 
@@ -54,9 +56,143 @@ Theorem C04_rank_selection_refuted :
   existsb (fun p => negb (ok_pair_by_rank keep_heavy false true p)) pairs = true.
 Proof. vm_compute. reflexivity. Qed.
 
+(* ---------------------------------------------------------------------- *)
+(* Debump.debump_residue (Model/Debump.v): which dihedral is scanned, which   *)
+(* angle is kept and when the search stops are decided by bump scores; the  *)
+(* theorems hold for ALL such decisions                                     *)
+
+(* (a) geometry as the oracle - ANY score / conflict / dihedral-measuring functions of the
+   coordinates, ANY motion family rotf: the coordinates after debump_residue are the rotations of
+   the recorded operation list (each about the middle bond of its dihedral, moving exactly that
+   dihedral's moveable set) applied in order to the initial coordinates; nothing else moves *)
+Theorem C04_debump_ops_are_rotations :
+  forall (A P : Type) (ar : Arith A) (rotf : P -> P -> A -> P -> P) (dihs : list dihedral)
+         (score_fn : (id -> P) -> nat -> A) (conf_fn : (id -> P) -> list id) (meas_fn : (id -> P) -> nat -> A)
+         (angles : list (option A)) (pos0 : id -> P) (conf : list id),
+  let st := snd (debump_residue ar (geo_oracle rotf dihs score_fn conf_fn meas_fn) dihs angles pos0 conf) in
+  st_w st = apply_ops rotf dihs (ops_of st) pos0.
+Proof. exact @debump_ops_are_rotations. Qed.
+
+(* (b) if every dihedral of the residue meets the graph conditions and each motion is distance
+   preserving and fixes its two axis points, then after debump_residue - whatever the scores,
+   conflicts and measured angles were - every bond length and every bond angle (1-3 distance)
+   among the atoms of interest is what it was *)
+Theorem C04_debump_rigid :
+  forall (A P D : Type) (ar : Arith A) (dist : P -> P -> D) (rotf : P -> P -> A -> P -> P),
+  (forall pb pc d x y, dist (rotf pb pc d x) (rotf pb pc d y) = dist x y) ->
+  (forall pb pc d, rotf pb pc d pb = pb) ->
+  (forall pb pc d, rotf pb pc d pc = pc) ->
+  forall (keep : id -> bool) (g : graph) (dihs : list dihedral),
+  (forall d, In d dihs -> rigid_ok keep g (d_b d) (d_c d) (d_mov d) = true) ->
+  forall (score_fn : (id -> P) -> nat -> A) (conf_fn : (id -> P) -> list id) (meas_fn : (id -> P) -> nat -> A)
+         (angles : list (option A)) (pos0 : id -> P) (conf : list id),
+  let pos1 := st_w (snd (debump_residue ar (geo_oracle rotf dihs score_fn conf_fn meas_fn) dihs angles pos0 conf)) in
+  (forall u v, In u (nodes g) -> In v (nbrs g u) -> keep u = true -> keep v = true ->
+               dist (pos1 u) (pos1 v) = dist (pos0 u) (pos0 v)) /\
+  (forall u v w, In v (nodes g) -> In u (nbrs g v) -> In w (nbrs g v) ->
+                 keep u = true -> keep v = true -> keep w = true ->
+                 dist (pos1 u) (pos1 w) = dist (pos0 u) (pos0 w)).
+Proof. exact @debump_rigid. Qed.
+
+(* the same for ANY list of rotation operations (not only those debump_residue produces) *)
+Theorem C04_rotation_list_rigid :
+  forall (A P D : Type) (dist : P -> P -> D) (rotf : P -> P -> A -> P -> P),
+  (forall pb pc d x y, dist (rotf pb pc d x) (rotf pb pc d y) = dist x y) ->
+  (forall pb pc d, rotf pb pc d pb = pb) ->
+  (forall pb pc d, rotf pb pc d pc = pc) ->
+  forall (keep : id -> bool) (g : graph) (dihs : list dihedral),
+  (forall d, In d dihs -> rigid_ok keep g (d_b d) (d_c d) (d_mov d) = true) ->
+  forall (ops : list (nat * A)) (pos : id -> P) u v,
+  In u (nodes g) -> In v (nbrs g u) -> keep u = true -> keep v = true ->
+  dist (apply_ops rotf dihs ops pos u) (apply_ops rotf dihs ops pos v) = dist (pos u) (pos v).
+Proof. exact apply_ops_bond. Qed.
+
+(* the hypothesis of (b) holds for the dihedral list of EVERY amino-acid template of the topology
+   under all terminus flags (heavy atoms), and no moveable set contains a backbone atom *)
+Theorem C04_debump_hypothesis_from_table :
+  forall (t : tres) (nt ct : bool), In t aminos ->
+  forall d, In d (template_dihedrals nm nt ct (tgraph t) (tr_dihedrals t)) ->
+  rigid_ok keep_heavy (tgraph t) (d_b d) (d_c d) (d_mov d) = true /\
+  existsb (fun a => mem a (nm_backbone nm)) (d_mov d) = false.
+Proof. exact (table_gives_debump_hypothesis C04_heavy_subtree_table). Qed.
+
+(* (c) an atom that is in no dihedral's moveable set has exactly its initial coordinates after
+   debump_residue (no hypothesis on the motions at all) *)
+Theorem C04_debump_backbone_fixed :
+  forall (A P : Type) (ar : Arith A) (rotf : P -> P -> A -> P -> P) (dihs : list dihedral)
+         (score_fn : (id -> P) -> nat -> A) (conf_fn : (id -> P) -> list id) (meas_fn : (id -> P) -> nat -> A)
+         (angles : list (option A)) (pos0 : id -> P) (conf : list id) (a : id),
+  (forall d, In d dihs -> mem a (d_mov d) = false) ->
+  st_w (snd (debump_residue ar (geo_oracle rotf dihs score_fn conf_fn meas_fn) dihs angles pos0 conf)) a = pos0 a.
+Proof. exact debump_backbone_fixed. Qed.
+
+(* (d) for ALL oracles over any world: at most DEBUMP_ANGLE_TEST_COUNT * DEBUMP_ANGLE_STEPS = 720
+   set_dihedral_angle calls, one rotation per call, every rotation about an index inside
+   residue.dihedrals, and the TypeError/IndexError paths are never taken *)
+Theorem C04_debump_terminates_within :
+  forall (A : Type) (ar : Arith A) (W : Type) (o : oracle A W) (dihs : list dihedral)
+         (angles : list (option A)) (w : W) (conf : list id),
+  let st := snd (debump_residue ar o dihs angles w conf) in
+  List.length (ops_of st) <= DEBUMP_ANGLE_TEST_COUNT * DEBUMP_ANGLE_STEPS /\
+  List.length (calls_of st) = List.length (ops_of st) /\
+  st_err st = false /\
+  List.length (st_dih st) = List.length angles /\
+  Forall (fun op => fst op < List.length angles) (ops_of st).
+Proof. exact @debump_terminates_full. Qed.
+
+(* (e) angles over R; hypothesis: the dihedral measured after a rotation is the requested angle
+   up to whole turns.  For every dihedral the sum of all rotation angles applied to it equals
+   (angle stored at the end) - (angle stored at the start) modulo 360 ... *)
+Theorem C04_debump_net_rotation :
+  forall (W : Type) (o : oracle R W) (dihs : list dihedral),
+  (forall w n req d, cong360 (fst (o_set R W o w n req d)) req) ->
+  forall (angles0 : list (option R)) (w : W) (conf : list id),
+  net_inv angles0 (snd (debump_residue RArith o dihs angles0 w conf)).
+Proof. exact @debump_net_rotation_full. Qed.
+
+(* ... and an attempt that does not return True ends with set_dihedral_angle(anglenum, bestangle):
+   the stored angle is bestangle modulo 360, and bestangle is the angle the attempt started from
+   unless an improvement was found - a fruitless scan returns to where it started (with
+   C04_debump_net_rotation: its rotation angles sum to 0 modulo 360) *)
+Theorem C04_debump_attempt_ends_at_bestangle :
+  forall (W : Type) (o : oracle R W),
+  (forall w n req d, cong360 (fst (o_set R W o w n req d)) req) ->
+  forall (st : dstate R W) (n : nat) (orig : R) (st' : dstate R W) (ba : R) (fd : bool) (cn : list id),
+  nth_error (st_dih st) n = Some (Some orig) ->
+  attempt RArith o st n = AttNext st' ba fd cn ->
+  hd_error (st_calls st') = Some (n, ba) /\
+  (exists m, nth_error (st_dih st') n = Some (Some m) /\ cong360 m ba) /\
+  (fd = false -> ba = orig).
+Proof. exact @attempt_ends_at_bestangle. Qed.
+
+(* non-vacuity: a residue with two dihedrals meeting the graph conditions, an answer sequence
+   with a fruitless attempt (72 calls, back at the start), an accepted one and a final attempt
+   that returns True; an oracle meeting the hypothesis of (e) *)
+Example C04_debump_nonvacuous :
+  forallb (fun d => rigid_ok (fun _ => true) ex_graph (d_b d) (d_c d) (d_mov d)) ex_dihs = true /\
+  (let '(r, st) := debump_residue ZAr (script_oracle 0%Z) ex_dihs ex_angles ex_script [6%positive] in
+   r = true /\ st_err st = false /\ sc_under (st_w st) = false /\
+   sc_scores (st_w st) = [] /\ sc_confs (st_w st) = [] /\ sc_meas (st_w st) = [] /\
+   map fst (ops_of st) = (repeat 1 72 ++ repeat 0 3 ++ [1])%list /\
+   nth_error (calls_of st) 71 = Some (1, 175%Z) /\
+   nth_error (calls_of st) 74 = Some (0, (-50)%Z) /\
+   fold_left Z.add (map snd (firstn 72 (ops_of st))) 0%Z = 0%Z /\
+   st_dih st = [Some (-50)%Z; Some 180%Z]) /\
+  (forall w n req d, cong360 (fst (o_set R unit (mkoracle R unit (fun w _ => (0%R, w)) (fun w => ([], w)) (fun w _ req _ => (req, w))) w n req d)) req).
+Proof. exact debump_nonvacuous. Qed.
+
 Print Assumptions C04_bond_preserved.
 Print Assumptions C04_angle_preserved.
 Print Assumptions C04_frame.
 Print Assumptions C04_heavy_subtree_table.
 Print Assumptions C04_nonvacuous.
 Print Assumptions C04_rank_selection_refuted.
+Print Assumptions C04_debump_ops_are_rotations.
+Print Assumptions C04_debump_rigid.
+Print Assumptions C04_rotation_list_rigid.
+Print Assumptions C04_debump_hypothesis_from_table.
+Print Assumptions C04_debump_backbone_fixed.
+Print Assumptions C04_debump_terminates_within.
+Print Assumptions C04_debump_net_rotation.
+Print Assumptions C04_debump_attempt_ends_at_bestangle.
+Print Assumptions C04_debump_nonvacuous.
